@@ -474,6 +474,19 @@ class SpecEval(object):
         if f == 'old':
             c2 = ctx.with_state(ctx.old)
             return self.ev(n.args[0], c2)
+        if f == 'heap_now':
+            # ghost snapshot of the whole state (used with at(H, e) and *_since(H, ...))
+            return SV(Ty('heap'), None, None, ctx.st.fork())
+        if f == 'at':
+            h = self.ev(n.args[0], ctx)
+            if h.ty.kind != 'heap':
+                raise Unsupported('at(H, e): H must be a heap snapshot')
+            c2 = ctx.with_state(h.meta)
+            n0 = len(h.meta.pc)
+            v = self.ev(n.args[1], c2)
+            if len(h.meta.pc) > n0:       # well-formedness facts of values read in the snapshot
+                ctx.side.extend(h.meta.pc[n0:])
+            return v
         if f == 'entry':
             c2 = ctx.with_state(ctx.entry)
             return self.ev(n.args[0], c2)
